@@ -2,6 +2,7 @@ import AmiscModel.Index
 import AmiscModel.Interp
 import AmiscModel.Store
 import AmiscModel.Sys
+import AmiscModel.Shape
 import AmiscModel.Generated.Transforms
 import AmiscModel.Generated.Consts
 import AmiscModel.Generated.Facts
